@@ -62,6 +62,8 @@ pub fn dump_symbols(symtab: &Symtab, int: &Rc<RefCell<StrInterner>>) -> String {
                 Some(v) => format!("{v}"),
                 None => "?".to_string(),
             },
+            #[allow(unreachable_patterns)]
+            _ => "?".to_string(),
         };
         let meta = symtab.meta_interner().get(sym.meta()).unwrap();
         let mut ms: Vec<String> = meta
